@@ -275,6 +275,22 @@ void h_release(void)
 }
 #endif
 
+#ifdef H_RELEASE_LOST
+/* the caller lost R to a preemptor (its record is gone, somebody else is the holder) and the PREEMPTED notice was
+ * overtaken by another signal, so it still believes it holds R and releases it (replay/c05_preempt_interrupt_demo.c) */
+void h_release_lost(void)
+{
+    setup(nondet_bool() ? 2 : 3);              /* the holder is another process */
+    const unsigned p_other = cmv_count(P, OTHER);
+    struct cmb_process *const h0 = R->holder;
+    cmb_resource_release(R);
+    OBT("C05-O1", R->holder == h0 && CMV_IRES, "a release by a process that has lost the resource leaves the present holder in place: still at most one holder");
+    OBT("C05-O3", cmv_count(P, OTHER) == p_other, "such a release touches no other record of the caller");
+    OBT("C14-O1", CMV_IREC, "the recorded state still equals the state");
+    CANARY("resource release by a former holder: end reachable");
+}
+#endif
+
 #ifdef H_DROP
 void h_drop(void)
 {
